@@ -128,6 +128,19 @@ theorem ListReq.length_eq {l l' : List Val} (h : ListReq l l') : l.length = l'.l
   | nil => rfl
   | cons _ _ ih => simp [ih]
 
+theorem ListReq.append {l l' k k' : List Val} (h : ListReq l l') (hk : ListReq k k') :
+    ListReq (l ++ k) (l' ++ k') := by
+  induction h with
+  | nil => exact hk
+  | cons hx _ ih => exact .cons hx ih
+
+theorem ListReq.reverse {l l' : List Val} (h : ListReq l l') : ListReq l.reverse l'.reverse := by
+  induction h with
+  | nil => exact .nil
+  | cons hx _ ih =>
+    simp only [List.reverse_cons]
+    exact ih.append (.cons hx .nil)
+
 /-- outcome of `get_args::<N>` style helpers on related argument lists -/
 inductive ArgsRel {α : Type} (R : α → α → Prop) : Except Err α → Except Err α → Prop where
   | err (e : Err) : ArgsRel R (.error e) (.error e)
